@@ -827,7 +827,81 @@ pub fn run(tier: Tier) -> i32 {
         items(tier),
         DxOpts { time_cap: cap, det_replays: 1, max_violations: 2, vacuity_check: false },
     );
+    lx_server_release(&mut rep);
     rep.finish("fault enumeration x DX: {client, server role} x {EOF/reset/unexpected-EOF at every byte offset of the peer stream, failure at every write call and flush, Alert at every frame boundary, keep-alive silence, owner close (once, twice, racing EOF, failing/hanging shutdown), stalled peer} x <= B scheduling deviations; waiters: blocked reader, pending open, in-flight writer; non-trivial = distinct trace with >= 1 deviation")
+}
+
+/// LX: the real Server must release a session's TCP connection once the session has ended
+/// (client went away): no socket of the server port may linger in CLOSE_WAIT.
+fn lx_server_release(rep: &mut Report) {
+    use crate::lx::*;
+    use tokio::io::AsyncWriteExt;
+    let rt = crate::semi::rt_multi();
+    let res: Result<(usize, usize, usize), String> = rt.block_on(async {
+        let lx = start_lx("pw", "pw", pool_cfg(3600, 3600, 1), false, false).await?;
+        let target = start_target("127.0.0.1", TargetMode::Echo, vec![]).await;
+        let n = 24usize;
+        let fds_before = std::fs::read_dir("/proc/self/fd").map(|d| d.count()).unwrap_or(0);
+        let hash = anytls_rs::util::auth::hash_password("pw");
+        let mut conns = vec![];
+        for i in 0..n {
+            let cfg = anytls_rs::util::tls::create_client_config().map_err(|e| e.to_string())?;
+            let connector = tokio_rustls::TlsConnector::from(cfg);
+            let tcp = tokio::net::TcpStream::connect(lx.server_addr).await.map_err(|e| e.to_string())?;
+            let mut tls = connector.connect(tokio_rustls::rustls::pki_types::ServerName::try_from("localhost").unwrap(), tcp).await.map_err(|e| e.to_string())?;
+            let mut bytes = hash.to_vec();
+            bytes.extend_from_slice(&[0, 0]);
+            bytes.extend_from_slice(&enc(SETTINGS, 0, b"v=2\nclient=x\npadding-md5=0"));
+            let _ = (i, &target); // sessions without streams: only the session's own transport is at stake
+            tls.write_all(&bytes).await.map_err(|e| e.to_string())?;
+            tls.flush().await.map_err(|e| e.to_string())?;
+            conns.push(tls);
+        }
+        tokio::time::sleep(Duration::from_millis(300)).await;
+        // the clients go away: a third shut down cleanly, the rest just drop the connection
+        for (i, mut c) in conns.into_iter().enumerate() {
+            if i % 3 == 0 {
+                let _ = c.shutdown().await;
+            }
+            drop(c);
+        }
+        // count server-side sockets of these sessions that are still held
+        let port_hex = format!(":{:04X}", lx.server_addr.port());
+        let mut lingering = 0usize;
+        let mut worst = 0usize;
+        for round in 0..30 {
+            tokio::time::sleep(Duration::from_millis(100)).await;
+            let text = tokio::fs::read_to_string("/proc/net/tcp").await.unwrap_or_default();
+            lingering = text.lines().skip(1).filter(|l| {
+                let f: Vec<&str> = l.split_whitespace().collect();
+                // local address is the server port, state CLOSE_WAIT (08) or ESTABLISHED (01)
+                f.len() > 3 && f[1].ends_with(&port_hex) && (f[3] == "08" || f[3] == "01")
+            }).count();
+            worst = worst.max(lingering);
+            // the server runs in this process: its descriptors are ours
+            let fds_now = std::fs::read_dir("/proc/self/fd").map(|d| d.count()).unwrap_or(0);
+            lingering = lingering.max(fds_now.saturating_sub(fds_before + 2));
+            if lingering == 0 && round >= 2 {
+                break;
+            }
+        }
+        Ok((n, lingering, worst))
+    });
+    drop(rt);
+    match res {
+        Err(e) => rep.machinery(format!("LX server-release: {e}")),
+        Ok((n, lingering, _worst)) => {
+            rep.case(Some("lx server releases transports"));
+            rep.sections.insert("lx_server_release".into(), json!({"sessions": n, "sockets_still_held_after_3s": lingering}));
+            if lingering > 0 {
+                rep.violation(
+                    "C09:server:transport-never-released",
+                    &format!("{lingering} of {n} server-side TCP connections / socket descriptors are still held 3 s after their clients went away: the ended sessions and their sockets are never released"),
+                    json!({"engine": "LX", "sessions": n}),
+                );
+            }
+        }
+    }
 }
 
 pub fn replay(file: &str) -> i32 {
